@@ -24,7 +24,7 @@ PROPS = {
              "plus values padded to 20300..20470 characters so replacements reach the 20 kB limit; HOME set/unset/empty, 7..12 built-ins; "
              "the argument is an exact CONFIG_BUFF-byte simulated block; oracle = reference expander written from the stated rules (value checked unless a don't-care construct occurs), NUL-termination and length, "
              "and a second execution of the whole plan under different heap and stack garbage that must give byte-identical results; distinct = distinct trace hash; non-trivial = >= 3 ops",
-             probes=["value_checked", "value_dont_care", "dollar_mid_line", "backslash_at_end", "unterminated_brace", "nested_call_depth3", "result_hits_limit", "tilde_inside_quotes", "big_directory", "dirscan_listing_modelled", "dirscan_listing_over_limit", "cut_result_is_a_prefix",
+             probes=["fdopen_failed", "fchmod_failed", "value_checked", "value_dont_care", "dollar_mid_line", "backslash_at_end", "unterminated_brace", "nested_call_depth3", "result_hits_limit", "tilde_inside_quotes", "big_directory", "dirscan_listing_modelled", "dirscan_listing_over_limit", "cut_result_is_a_prefix",
                      "random_picked_another_word", "dirscan_no_directory"]),
     "C11": P(["asan", "asanz"], 30, 900,
              "plans = 1..4 init/register/parse/free cycles; files are arbitrary byte strings or metacharacter-rich config text (NULs, lines of 20470..20482 and 41000 bytes, missing final newline, "
@@ -32,7 +32,7 @@ PROPS = {
              "spifconf_find_file with file/dir/pathlist strings up to 40000 bytes, spiftool_temp_file under a libc that creates with 0600 or 0666&~umask, direct expansions up to the 20 kB limit; "
              "oracle = ASan/allocator verdict, step and CPU budgets, spawn census, temp-file mode/uniqueness census, allocator ledger at spifconf_free_subsystem, equal handler traces for repeated cycles; "
              "distinct = distinct trace hash; non-trivial = >= 3 ops",
-             probes=["lifecycle_cycle_completed", "repeated_cycle_compared", "builtin_table_grew", "empty_file", "nul_in_file", "line_over_limit", "line_near_limit", "contexts_crossed_160",
+             probes=["fdopen_failed", "fchmod_failed", "lifecycle_cycle_completed", "repeated_cycle_compared", "builtin_table_grew", "empty_file", "nul_in_file", "line_over_limit", "line_near_limit", "contexts_crossed_160",
                      "spawn_by_directive", "vars_defined", "second_cycle_uses_vars", "find_file_found", "path_component_over_limits", "temp_file_created", "big_directory"]),
     "C09": P(["plain", "plainz"], 30, 900,
              "plans = a simulated file tree (root + include files, include chains up to 200 deep, files without magic, missing files, empty files, directories and files that open but cannot be read) over the line grammar "
@@ -40,7 +40,7 @@ PROPS = {
              "optional override of the null context, fopen failures and seeded read chunking from the parse op's fault script, parse with and without a search path; "
              "oracle = reference dispatcher producing the exact handler-call trace incl. state tokens, stack balance and index<capacity through read-only accessors; "
              "distinct = distinct trace hash; non-trivial = >= 3 ops",
-             probes=["line_delivered_with_open_expansion", "depth_crossed_20", "depth_crossed_40", "depth_crossed_80", "depth_crossed_160", "include_depth_crossed_10", "include_depth_crossed_20", "include_depth_crossed_40",
+             probes=["program_renamed", "line_delivered_with_open_expansion", "depth_crossed_20", "depth_crossed_40", "depth_crossed_80", "depth_crossed_160", "include_depth_crossed_10", "include_depth_crossed_20", "include_depth_crossed_40",
                      "include_depth_crossed_80", "include_depth_crossed_160", "unknown_context", "surplus_end", "eof_without_newline", "include_open_failed", "contexts_crossed_20",
                      "contexts_crossed_160", "unbalanced_input", "file_opened_but_unreadable", "empty_file",
                      "delivered_value_was_expanded", "include_refused_at_depth_255", "root_found_through_search_path"]),
@@ -67,13 +67,13 @@ PROPS = {
              "vobj or str elements) with make/mutate/query/dup/done+re-init/del; allocator policies incl. garbage fill, immediate address reuse and far-apart placement; "
              "after dup: distinct object, same class, type() equal, observer equal; after every op: no other object's observation changed (independence), and "
              "reflexive/antisymmetric/transitive/NULL-first comparison over all same-kind pairs of the pool; distinct = distinct trace hash; non-trivial = >= 3 ops",
-             probes=["dup", "class_checked", "comp_pair", "comp_null_first", "comp_of_equal_values", "extended_mutator", "tok_quote_characters_changed", "stream_constructor_ok",
+             probes=["extended_mutator_2", "dup", "class_checked", "comp_pair", "comp_null_first", "comp_of_equal_values", "extended_mutator", "tok_quote_characters_changed", "stream_constructor_ok",
                      "empty_container", "list_with_holes", "pair_without_value", "tok_evaluated", "regexp_compiled", "done", "del"]),
     "C06": P(["asan", "asanz"], 30, 900,
              "plans = seeded programs (4..60 ops) over the whole object API (16 kinds as in C05): create, fill, query (everything handed out is deleted by the caller), "
              "copy, done + re-init, property setters, re-evaluation, early deletion; the simulated allocator is the ledger: live set after deleting every object == live set before, "
              "no double free / foreign free / use after free (ASan + allocator), element objects deleted exactly once; distinct = distinct trace hash; non-trivial = >= 3 ops",
-             probes=["set_with_own_value", "set_with_own_key", "extended_mutator", "map_list_into_given", "stream_constructor_gave_up", "property_set_to_null", "tok_tokens_handed_in",
+             probes=["extended_mutator_2", "set_with_own_value", "set_with_own_key", "extended_mutator", "map_list_into_given", "stream_constructor_gave_up", "property_set_to_null", "tok_tokens_handed_in",
                      "dup", "done", "del", "map_value_overwritten", "list_with_holes", "tok_reevaluated", "property_setter", "removed_element_deleted_by_caller",
                      "key_value_pair_list_deleted", "empty_container", "regexp_recompiled"]),
     "C02": P(["asan", "asanz"], 30, 900,
@@ -101,21 +101,21 @@ PROPS = {
              "(empty, ptr, buff, FILE* seekable/streaming at zero/non-zero position with seeded chunking, descriptor regular-file/streaming with short reads, EINTR, EIO), "
              "all 256 byte values incl. NUL, sizes 0..13000 around the 4096-byte chunk; every object compared with an ideal byte sequence after every step; "
              "distinct = distinct trace hash; non-trivial = >= 3 ops",
-             probes=["self_as_argument", "argument_related_to_object", "null_pointer_with_a_length", "source_read_error",
+             probes=["fp_over_descriptor", "fp_over_descriptor_partly_read", "self_as_argument", "argument_related_to_object", "null_pointer_with_a_length", "source_read_error",
                      "append_on_empty", "fp_seekable", "fp_streaming", "fp_seekable_nonzero_pos", "fd_regular_file", "fd_streaming", "fd_multi_chunk",
                      "stream_exactly_4096", "refused_op", "absent_byte_search", "cmp_different_lengths", "trim_all_whitespace", "done"]),
     "C01": P(["asan", "asanz"], 30, 900,
              "plans = seeded histories (4..40 ops, pool of 4 objects, str or ustr, direct functions or class-table macros) starting from a random constructor "
              "(empty, ptr, buff, num, FILE* with seeded chunking, descriptor with short reads/EINTR/EAGAIN/EIO), texts from empty to 16 KB around the 4096-byte chunk; "
              "every object is compared with an ideal character sequence after every step; distinct = distinct trace hash (includes allocator digest); non-trivial = >= 3 ops",
-             probes=["self_as_argument", "argument_related_to_object", "counted_buffer_without_terminator", "fp_read_error",
+             probes=["fp_over_descriptor", "self_as_argument", "argument_related_to_object", "counted_buffer_without_terminator", "fp_read_error",
                      "append_on_empty", "fp_line_crosses_4096", "fd_multi_chunk", "refused_op", "done", "query_not_found", "trim_all_whitespace",
                      "mutator_on_empty_state", "dup_of_empty_str"]),
     "C19": P(["plain", "plainz"], 30, 900,
              "plans = fault-script sweep (all scripts over {FULL,SHORT,EINTR}^<=3 on the first reads and {FULL,SHORT,EINTR,EAGAIN}^<=3 on the first writes x 8 payload sizes from 5 to 20000 bytes incl. exact multiples of the 4096-byte chunk) "
              "followed by seeded lifecycles of 1 server + 1..3 client tasks with per-call fault scripts (socket/bind/listen/connect/accept/read/write/close outcomes), listeners on taken addresses, open retries and seeded schedules; "
              "distinct = distinct trace hash (every simulated call outcome and scheduling decision is hashed); non-trivial = plan has >= 3 operations",
-             probes=["sweep_plan", "accept_ok", "send_true", "recv_over_4096", "dup_ok", "open_failed", "accept_failed", "run_ended_blocked", "run_completed",
+             probes=["fault_burst", "sweep_plan", "accept_ok", "send_true", "recv_over_4096", "dup_ok", "open_failed", "accept_failed", "run_ended_blocked", "run_completed",
                      "recv_ended_at_eof", "recv_ended_on_error", "send_partially_delivered", "natural_eagain_on_write", "dup_without_descriptor", "sender_nonblocking_through_its_copy"]),
     "T00": P(["asan"], 3, 10, "selftest: random allocator traffic; distinct = distinct trace hash among runs with >= 3 ops"),
 }
